@@ -133,6 +133,9 @@ class LegacyImpl:
             if k == "remove":
                 sp.remove_agent(self.agent(w[1]))
                 return "ok"
+            if k == "setpos":
+                self.agent(w[1]).pos = self.pt(w[2], w[3])  # the user, not the space
+                return "ok"
             if k == "pos":
                 p = self.agent(w[1]).pos
                 return "ok pos=None" if p is None else "ok pos=" + ",".join(to_units(v) for v in p)
@@ -395,9 +398,14 @@ def oracle(sc, obs):
                         sp.order.remove(a)
                 elif o == "ok":
                     bad.append(f"accept-invalid: {line} of an agent that is not in the space")
+            elif k == "setpos":
+                # agent.pos assigned behind the space's back: not a call of the property's histories.  The property knows no
+                # position of that agent until the space assigns one again (and range queries are not judged meanwhile)
+                if int(w[1]) in sp.pos:
+                    sp.pos[int(w[1])] = None
             elif k == "pos":
                 a = int(w[1])
-                if a in sp.pos:
+                if sp.pos.get(a) is not None:
                     want = "ok pos=%d,%d" % sp.pos[a]
                     if o != want:
                         bad.append(f"pos-last-assigned: agent {a} reports {o}, last assigned {want}")
@@ -409,7 +417,7 @@ def oracle(sc, obs):
                 pt, r, incl = (int(w[1]), int(w[2])), int(w[3]), int(w[4])
                 if not o.startswith("ok nbrs="):
                     bad.append(f"query-raised: {line} -> {o}")
-                elif sp.metric_ok(pt):
+                elif sp.metric_ok(pt) and all(v is not None for v in sp.pos.values()):
                     want = sorted(a for a, q in sp.pos.items() if sp.d2(q, pt) <= r * r and (incl or sp.d2(q, pt) > 0))
                     if o != "ok nbrs=" + ",".join(map(str, want)):
                         bad.append(f"radius-exact: {line} -> {o}, agents within the radius are {want}")
@@ -739,6 +747,20 @@ class Gen:
             self.emit(f"heading {self.fmt(q)} {self.fmt(p)}")
         else:
             self.emit(f"{R.choice(['oob', 'adj'])} {self.fmt(self.point(0.3))}")
+        if sp.order and not self.rr and R.random() < 0.025:
+            # the user assigns agent.pos directly; with a live cache get_neighbors keeps answering for the old position
+            a = self.member() if R.random() < 0.85 or not self.removed else R.choice(self.removed)
+            old = sp.pos.get(a)
+            p = self.point(0.2)
+            if R.random() < 0.6:
+                self.emit(f"nbrs {self.fmt(self.inside_point())} {R.choice([64, 200, 1000])} 1")  # make sure the cache is live
+            self.emit(f"setpos {a} {self.fmt(p)}")
+            if a in sp.pos:
+                sp.pos[a] = tuple(p)
+            self.emit(f"pos {a}")
+            for q in ([old, p] if old is not None else [p]):
+                if self.sp.inside(q) or not self.torus:
+                    self.emit(f"nbrs {self.fmt(q)} {R.choice([0, 1, 64])} 1")
         if self.rr and R.random() < 0.5:
             self.emit(R.choice(["agents", f"pos {self.member() or 1}", f"nbrs {self.fmt(self.inside_point())} 200 1"]))
 
